@@ -73,3 +73,71 @@ Theorem C01_nothing_lost :
   run_reads s sid ls os ++ match rview s sid y with Some (rb, _) => pipe rb | None => [] end.
 Proof. exact nothing_lost. Qed.
 Print Assumptions C01_nothing_lost.
+
+(* ---------------------------------------------------------------------------------------------
+   The relay level: common.Copy (internal/common/copy.go) and the uplink of client.RouteTCP
+   (internal/client/piper.go), Model/Copy.v.  The behaviour of the two connections is an input: ANY
+   script of Read results (bytes + error) and Write results (count + error). *)
+From Cloak Require Import Model.Copy Proofs.Copy Proofs.RelayChain.
+Local Open Scope Z_scope.
+
+(* What Copy's loop hands to dst.Write is, byte for byte and in order, what the Read calls it consumed
+   returned (`pre` = the consumed prefix of the script): nothing dropped, duplicated or invented,
+   whatever the reads return (empty reads, bytes together with an error) and however the writes fail. *)
+Theorem C01_copy_forwards_exactly : forall rs ws dn,
+  co_fuel (copy KPlain rs ws dn) = false ->
+  exists pre, rs = pre ++ co_reads_left (copy KPlain rs ws dn) /\
+              concat (writes_of (co_evs (copy KPlain rs ws dn))) = concat (map fst pre).
+Proof. exact copy_forwards_reads. Qed.
+Print Assumptions C01_copy_forwards_exactly.
+
+(* A source that ends with EOF after any successful reads, into a sink that takes what it is given:
+   EVERYTHING is forwarded (also the bytes that came together with the EOF), the error is nil and the
+   count returned is the number of bytes forwarded. *)
+Theorem C01_copy_complete : forall pre d left ws dn,
+  forallb rnil pre = true -> (length pre + 1 <= length ws)%nat -> forallb honest ws = true ->
+  co_fuel (copy KPlain (pre ++ (d, REOF) :: left) ws dn) = false /\
+  co_err (copy KPlain (pre ++ (d, REOF) :: left) ws dn) = CNil /\
+  concat (writes_of (co_evs (copy KPlain (pre ++ (d, REOF) :: left) ws dn))) = concat (map fst pre) ++ d /\
+  co_written (copy KPlain (pre ++ (d, REOF) :: left) ws dn) = zlen (concat (map fst pre) ++ d).
+Proof. exact copy_complete. Qed.
+Print Assumptions C01_copy_complete.
+
+(* On every path - delegated to WriteTo / ReadFrom or not, success or failure - both connections are
+   closed, source first, as the last two calls, and never before. *)
+Theorem C01_copy_closes_both : forall k rs ws dn,
+  exists evs, co_evs (copy k rs ws dn) = evs ++ [ECloseSrc; ECloseDst] /\ no_close evs = true.
+Proof. exact copy_closes_both. Qed.
+Print Assumptions C01_copy_closes_both.
+
+(* A nil error is returned only after an EOF from the source. *)
+Theorem C01_copy_nil_only_after_eof : forall rs ws written acc,
+  co_fuel (copy_loop rs ws written acc) = false -> co_err (copy_loop rs ws written acc) = CNil ->
+  exists pre d, rs = pre ++ (d, REOF) :: co_reads_left (copy_loop rs ws written acc) /\ forallb rnil pre = true.
+Proof. exact copy_loop_nil_only_eof. Qed.
+Print Assumptions C01_copy_nil_only_after_eof.
+
+(* The uplink of RouteTCP (first packet by ReadAtLeast + Stream.Write, then Stream.ReadFrom): the
+   concatenation of its Stream writes is a prefix of what the local connection's reads returned, and
+   the local connection is closed on every path. *)
+Theorem C01_relay_uplink_prefix : forall rs,
+  (exists tail, concat (map fst rs) = concat (swrites (route_tcp_up rs)) ++ tail) /\ In SCloseLocal (route_tcp_up rs).
+Proof. exact relay_uplink_prefix. Qed.
+Print Assumptions C01_relay_uplink_prefix.
+
+(* End to end, composed with the session-pair theorem: if the writes of side s on stream sid are those
+   of a RouteTCP uplink fed by the read script rs of its local connection, and the far end pumps what
+   its Stream.Read calls return (rs2) into its own connection with Copy, then - over EVERY label
+   sequence of the session pair, any number of connections, any arrival order, faults included, and
+   every behaviour of the three connections - what the far connection is handed is a prefix of what the
+   local peer sent. *)
+Theorem C01_relay_end_to_end :
+  forall k sp u ta tb s sid ls (rs rs2 : list rd) (ws : list wout) (dn : Z),
+  fresh_run (init k sp u ta tb) ls ->
+  (nE (run_frames s sid (outputs k sp u ta tb ls)) + 2 < two64)%N ->
+  run_written s sid ls (outputs k sp u ta tb ls) = concat (swrites (route_tcp_up rs)) ->
+  concat (map fst rs2) = run_reads s sid ls (outputs k sp u ta tb ls) ->
+  co_fuel (copy KPlain rs2 ws dn) = false ->
+  exists tail, concat (map fst rs) = concat (writes_of (co_evs (copy KPlain rs2 ws dn))) ++ tail.
+Proof. exact relay_end_to_end. Qed.
+Print Assumptions C01_relay_end_to_end.
